@@ -1540,17 +1540,29 @@ fn main() {
             bump("samples:cpu-result", ncpu_ok);
             bump("samples:cpu-fault-skipped", ncpu_sig);
             if spec { bump("samples:spec-vs-cpu", ncpu_ok); bump("encodings:with-spec", 1); } else { bump("encodings:cpu-only", 1); }
-            // same predicate as Isa/X86Mirror.mirror_instr (forms with a Gallina mirror, a sim theorem and the syntactic tie)
-            let regimm = f.ops.iter().all(|o| !o.is_mem());
-            let dst_reg = !f.ops.is_empty() && matches!(f.ops[0], Op::Reg(_) | Op::RegH(_));
-            let mirrored = (regimm && dst_reg
-                && ((f.class == "mov") || (f.class == "alu" && ["add", "sub", "cmp", "and", "or", "xor"].contains(&f.mnem.as_str()))
-                    || (f.class == "unary" && ["inc", "dec"].contains(&f.mnem.as_str()))
-                    || f.class == "setcc" || f.class == "movx"))
-                || (f.class == "lea" && matches!(f.ops.get(1), Some(Op::Mem { base, index, rip, .. }) if !*rip && (base.is_some() || index.is_some())));
+            // same predicate as Isa/X86Mirror.mirror_instr: forms with a Gallina mirror whose output is tied syntactically
+            let memok = |o: &Op| matches!(o, Op::Mem { base, index, rip, .. } if !*rip && (base.is_some() || index.is_some()));
+            let regop = |o: &Op| matches!(o, Op::Reg(_) | Op::RegH(_));
+            let o0 = f.ops.first();
+            let o1 = f.ops.get(1);
+            let src_regimm = o1.map_or(true, |o| regop(o) || matches!(o, Op::Imm(_)));
+            let two_op_shape = match o0 {
+                Some(d) if regop(d) => src_regimm || o1.map_or(false, |o| memok(o)),
+                Some(d) if memok(d) => src_regimm,
+                _ => false,
+            };
+            let alu6 = ["add", "sub", "cmp", "and", "or", "xor"].contains(&f.mnem.as_str());
+            let mirrored = (f.class == "mov" && two_op_shape)
+                || (f.class == "alu" && alu6 && two_op_shape)
+                || (f.class == "unary" && ["inc", "dec"].contains(&f.mnem.as_str()) && o0.map_or(false, |d| regop(d) || memok(d)))
+                || (f.class == "setcc" && o0.map_or(false, |d| regop(d)))
+                || (f.class == "movx" && o1.map_or(false, |o| regop(o) || memok(o)))
+                || (f.class == "lea" && o1.map_or(false, |o| memok(o)))
+                || (f.class == "stack" && (o0.map_or(true, |d| regop(d) || memok(d))) && (f.mnem == "push" || !f.ops.is_empty()));
             if mirrored { bump("encodings:mirror-syntactic-tie", 1); }
-            // ... of which also covered by a sim theorem: all but `xor x, x` (lifted to the constant 0) and setp/setnp (PF is
-            // not part of the embedding)
+            // ... of which also covered by a sim theorem (Props/C01.v); memory forms: under the no-wrap state condition
+            let mem_dst = o0.map_or(false, |d| memok(d));
+            let _ = mem_dst;
             let excluded = (f.mnem == "xor" && f.ops.len() == 2 && f.ops[0] == f.ops[1]) || f.mnem == "setp" || f.mnem == "setnp";
             if mirrored && !excluded { bump("encodings:sim-theorem-and-tie", 1); }
         }
